@@ -5,6 +5,7 @@
 package compiler
 
 import (
+	"bytes"
 	"errors"
 	"fmt"
 	"strings"
@@ -313,7 +314,13 @@ func ParseTemplateSource(src []byte, format ast.Format, imported, noParseShow bo
 				n++
 			}
 			if cut && n == 1 {
-				cutSpaces(firstText, text)
+				last := text
+				if last != nil && tok.pos.End != lastIndex && bytes.IndexByte(last.Text, '\n') == -1 {
+					// The text follows, on its line, the end of a statement
+					// that spans lines: it does not end the line being closed.
+					last = nil
+				}
+				cutSpaces(firstText, last)
 			}
 			line = tok.lin
 			firstText = text
